@@ -126,9 +126,17 @@ class Cfg:
                     continue
                 rv = st.rv
                 if rv.k == "agg" and rv.j.get("agg") == "adt" and rv.j.get("variant") in self._VAR:
-                    seq.append(("set", L, rv.j["variant"]))
+                    inner = None
+                    if len(rv.ops) == 1 and rv.ops[0].place is not None and not rv.ops[0].place.proj:
+                        inner = rv.ops[0].place.local
+                    seq.append(("set", L, rv.j["variant"], inner))
                 elif rv.k == "use" and rv.ops and rv.ops[0].place is not None and not rv.ops[0].place.proj:
                     seq.append(("copy", L, rv.ops[0].place.local))
+                elif rv.k == "use" and rv.ops and rv.ops[0].place is not None and len(rv.ops[0].place.proj) == 2 and \
+                        rv.ops[0].place.proj[0].get("k") == "downcast" and rv.ops[0].place.proj[1].get("k") == "field" and \
+                        rv.ops[0].place.proj[1].get("i") == 0:
+                    # `x = (y as Variant).0`: the payload of a value whose wrapper and payload are both known
+                    seq.append(("unwrap", L, rv.ops[0].place.local, rv.ops[0].place.proj[0].get("variant")))
                 elif rv.k == "discr" and rv.place is not None and not rv.place.proj:
                     seq.append(("discr", L, rv.place.local))
                 else:
@@ -169,7 +177,14 @@ class Cfg:
         for op in seq:
             k = op[0]
             if k == "set":
-                st[op[1]] = op[2]
+                inner = st.get(op[3]) if len(op) > 3 and op[3] is not None else None
+                st[op[1]] = ("w", op[2], inner) if inner is not None and not (isinstance(inner, tuple) and inner[0] == "d") else op[2]
+            elif k == "unwrap":
+                v = st.get(op[2])
+                if isinstance(v, tuple) and v[0] == "w" and v[1] == op[3] and v[2] is not None:
+                    st[op[1]] = v[2]
+                else:
+                    st.pop(op[1], None)
             elif k == "copy":
                 v = st.get(op[2])
                 if v is not None:
@@ -178,12 +193,16 @@ class Cfg:
                     st.pop(op[1], None)
             elif k == "discr":
                 v = st.get(op[2])
+                if isinstance(v, tuple) and v[0] == "w":
+                    v = v[1]
                 if v is not None and not isinstance(v, tuple):
                     st[op[1]] = ("d", v)
                 else:
                     st.pop(op[1], None)
             elif k == "branch":
                 v = st.get(op[2])
+                if isinstance(v, tuple) and v[0] == "w":
+                    v = v[1]
                 if v in self._BRANCH:
                     st[op[1]] = self._BRANCH[v]
                 else:
